@@ -42,6 +42,8 @@ def run(ctx):
             if vals is None:      # HDDDM / CDBD: t-test significance (smaller = stricter) or number of deviations (larger = stricter)
                 if i % 2 == 0:
                     p["statistic"] = "tstat"
+                elif i % 4 == 1:
+                    p["statistic"] = "stdev"
                 if p["statistic"] == "tstat":
                     vs = [0.9, 0.6, 0.3, 0.2, 0.05, 0.01]       # (significance levels above one half are legal)
                 else:
@@ -52,6 +54,8 @@ def run(ctx):
             if vals is None and p["statistic"] == "tstat" and i % 2 == 0:
                 i1 = 0                               # the looser run uses a level well above one half, the stricter one a level around it or below
                 i2 = rng.choice([1, 2, 3])
+            if vals is None and p["statistic"] != "tstat" and i % 4 == 1:
+                i1, i2 = rng.choice([0, 1]), rng.choice([4, 5])     # a count of deviations below one against a count of one or more
             if vals is not None and i == 0:         # the strictest legal setting of the family against a looser one, every time
                 i2 = len(vs) - 1
                 i1 = rng.randrange(i2)
